@@ -109,6 +109,37 @@ CHECKS = {
    note=BASE_NOTE + 'Gaussian-fit optimiser (scipy curve_fit) is external: swept to 1e-6 px only.',
    technique='Coq proof over exact-rational model + vm_compute correspondence + property search on implementation',
    design='DESIGN.md §3 C13'),
+ 'C14': dict(
+   text=('Theorems: the hand-written inv2/inv3 cofactor formulas REGENERATED from vmi.py times the Hankel matrix give the identity when '
+         'the tested determinant is non-zero; the fold of the four image regions into one quadrant uses each source pixel exactly once '
+         '(every shape, origin, rmax; even and odd modes, negative-step slices included); exact-model data is returned by the normal '
+         'equations (end-to-end on the executable model for N <= 3, pixel-level algebra for any order over any field); the Hankel '
+         'matrix is non-singular given enough distinct angles; the true (A, beta) is the unique least-squares minimiser. Tie: '
+         'translator + exhaustive geometry correspondence + value correspondence (vm_compute). Search: exact-model images and '
+         'noiseless beta curves on the implementation.'),
+   note=BASE_NOTE + 'N > 3 (numpy inv branch), the remap method and the curve_fit optimiser are tied by search only; executable instance uses 2^-100 fixed point; one recorded finding (reject mode at beta = -1, 2).',
+   technique='Coq proofs (list model, mathcomp algebra) + regenerated inv2/inv3 + vm_compute correspondence + search',
+   design='DESIGN.md §3 C14'),
+ 'C15': dict(
+   text=('Theorems: for all 18 (order <= 8, parity) cases, all real coefficient vectors and all angles the cos^n, cos^n sin^m and '
+         'Legendre representations define the same angular function; I = 4 pi r^2 P0, beta_n = P_n / P0 and the moving average; '
+         'origin spellings (negative index, 32 location strings) resolve to the same origin for all shapes; left-right mirror '
+         'invariance (all orders), top-bottom for even orders (partial), zero-weight pixels ignored. Tie: conversion matrices and '
+         'representations compared with the model for all cases (vm_compute). Search: representation agreement at random angles and '
+         'seven invariances on the implementation.'),
+   note=BASE_NOTE + 'Top-bottom mirror with odd orders, weight scaling and rmax prefix are swept only; "well-conditioned" = cond <= 1e8.',
+   technique='Coq proofs incl. finite families decided by computation and lifted by linearity + vm_compute correspondence + search',
+   design='DESIGN.md §3 C15'),
+ 'C16': dict(
+   text=('Theorems: the image built from radial profiles is the synthesis (linear interpolation between integer radii times cos^n, '
+         'zero one pixel beyond rmax); out=same/full/full-unique/fold/unfold geometry (shape, origin, part-of and mirror relations) '
+         'for every shape and origin; distributions independent of out; invalid radii zero; after the repair of the _ibs cache the '
+         'image after any history of out values equals the fresh-cache image. Tie: shape exactly and every pixel to 2^-40 against '
+         'the model evaluated on the returned distributions (vm_compute), fresh and after earlier calls. Search: image vs synthesis, '
+         'out consistency, zero-weight pixels, valid flags, Transform wrapper, call history.'),
+   note=BASE_NOTE + 'The Transform wrapper clause is swept; square roots are numpy values validated inside Coq by squaring.',
+   technique='Coq proofs over list/index model + vm_compute correspondence + search',
+   design='DESIGN.md §3 C16'),
  'C17': dict(
    text=('Theorems over regenerated expressions: Tikhonov with zero strength equals the plain inverse (daun diff/L2/L2c, rbasex, basex '
          'reg=0); daun reg=0/None take the same path for all degrees; daun default equals onion_peeling given W = B^T, and the '
